@@ -16,11 +16,14 @@ EXTENDS Naturals, Sequences, FiniteSets, TLC, Json, SequencesExt
 
 (* pool of traits: name -> methods in declaration order (deliberately not alphabetical) *)
 Pool == [Zeta |-> <<"zz", "aa", "mm">>, Alpha |-> <<"b1", "a2">>, Mid |-> <<"only">>,
-         Beta |-> <<"q", "p", "r", "o", "s">>, Nil |-> <<>>]
+         Beta |-> <<"q", "p", "r", "o", "s">>, Nil |-> <<>>,
+         TB |-> <<"tb1">>, Ta |-> <<"ta2", "ta1">>]
 Names == DOMAIN Pool
 
-(* name order as the generator sorts idents (ASCII order of these names) *)
-Rank == [Alpha |-> 1, Beta |-> 2, Gamma |-> 3, Mid |-> 4, Nil |-> 5, Omega |-> 6, Zeta |-> 7]
+(* name order = the order of Rust's string comparison on the identifiers (byte order: every upper-case  *)
+(* letter sorts before every lower-case one, so "TB" < "Ta"); existing binaries   *)
+(* rely on exactly this order, a case-insensitive or locale collation would move vtable pointers        *)
+Rank == [Alpha |-> 1, Beta |-> 2, Gamma |-> 3, Mid |-> 4, Nil |-> 5, Omega |-> 6, TB |-> 7, Ta |-> 8, Zeta |-> 9]
 SortByRank(S) == SetToSortSeq(S, LAMBDA a, b : Rank[a] < Rank[b])
 
 VtblLayout(t) == Pool[t]
@@ -36,10 +39,14 @@ ContainerLayout == <<"instance", "context">>   \* followed by one ret_tmp_<trait
 (* all listing orders of a set *)
 Perms(S) == {s \in [1..Cardinality(S) -> S] : \A i, j \in 1..Cardinality(S) : i # j => s[i] # s[j]}
 
-GroupSets == {[m |-> m, o |-> o] : m \in {{"Mid"}, {"Zeta", "Alpha"}},
+GroupSets == {[m |-> m, o |-> o] : m \in {{"Mid"}, {"Zeta", "Alpha"}, {"Ta", "TB"}},
                                    o \in {{}, {[tr |-> "Beta", key |-> "Beta"]},
                                           {[tr |-> "Beta", key |-> "Beta"], [tr |-> "Alpha", key |-> "Omega"]},
-                                          {[tr |-> "Nil", key |-> "Nil"], [tr |-> "Beta", key |-> "Gamma"], [tr |-> "Zeta", key |-> "Zeta"]}}}
+                                          {[tr |-> "Nil", key |-> "Nil"], [tr |-> "Beta", key |-> "Gamma"], [tr |-> "Zeta", key |-> "Zeta"]},
+                                          {[tr |-> "Ta", key |-> "Ta"], [tr |-> "TB", key |-> "TB"]}}}
+(* names of one group must differ in more than case: field and function names are derived from the   *)
+(* lower-cased name (two aliases `Gamma` / `GAmma` do not compile), so such definitions are outside   *)
+(* the quantifier                                                                                   *)
 Usable(g) == \A x \in g.o : x.tr \notin g.m
 Listings == UNION {{[mand |-> pm, opt |-> po] : pm \in Perms(g.m), po \in Perms(g.o)} : g \in {x \in GroupSets : Usable(x)}}
 
